@@ -1,3 +1,354 @@
-//! C18 — not built yet.
+//! C18 — the compiler is total: no stage panics, aborts or hangs; every error renders against the source.
+//!
+//! Three input streams (grammar-derived programs; mutated valid programs; raw noise ≤ 4 KiB, nesting ≤ 64)
+//! go through parse → format → type_check → token_map → transform → display → linearize → standardise →
+//! solve inside a watched child process (`pre_worker.rs`: wall-clock limit, address-space cap,
+//! `catch_unwind` per stage).  A fourth family — the primitive operator core over boundary values —
+//! is run in-process and doubles as the correspondence check of the Lean model `Rooc/Pre/Prim.lean`.
 use crate::case::Case;
-pub fn generate(_seed: u64, _n: usize, _thorough: bool, _corpus: Option<&str>) -> Vec<Case> { vec![] }
+use crate::pre_gen::*;
+use crate::pre_reflect;
+use crate::pre_worker::{Pool, RunResult};
+use crate::rng::Rng;
+use std::time::Duration;
+
+pub const MAX_BYTES: usize = 4096;
+pub const MAX_NEST: usize = 64;
+
+// ------------------------------------------------------------------------------------ features
+pub fn depths(s: &str) -> (usize, usize, usize) {
+    let (mut p, mut b, mut c) = (0usize, 0usize, 0usize);
+    let (mut mp, mut mb, mut mc) = (0, 0, 0);
+    for ch in s.chars() {
+        match ch {
+            '(' => { p += 1; mp = mp.max(p); } ')' => { p = p.saturating_sub(1); }
+            '[' => { b += 1; mb = mb.max(b); } ']' => { b = b.saturating_sub(1); }
+            '{' => { c += 1; mc = mc.max(c); } '}' => { c = c.saturating_sub(1); }
+            _ => {}
+        }
+    }
+    (mp, mb, mc)
+}
+/// an integer literal >= 5000 (sizes of ranges are user numbers)
+pub fn has_big_literal(s: &str) -> bool {
+    let mut run = String::new();
+    let mut check = |run: &mut String| { let big = run.len() >= 19 || run.parse::<u64>().map(|v| v >= 5000).unwrap_or(false); run.clear(); big };
+    for ch in s.chars() {
+        if ch.is_ascii_digit() { run.push(ch); } else if check(&mut run) { return true; }
+    }
+    check(&mut run)
+}
+/// the input feature that explains a time-out / process death at `stage` (keeps known-finding signatures narrow)
+fn features(stage: &str, s: &str) -> String {
+    let (p, b, c) = depths(s);
+    let big = has_big_literal(s);
+    match stage {
+        "startup" | "parse" | "format" => if p >= 10 { "paren-depth>=10" } else if b >= 10 { "bracket-depth>=10" } else { "plain" },
+        "type_check" | "token_map" | "transform" | "display" => if big { "big-literal" } else { "plain" },
+        _ => if big { "big-literal" } else if c >= 16 { "curly-depth>=16" } else { "plain" },
+    }.to_string()
+}
+/// panic messages carry input fragments: keep the fixed part only
+fn norm_msg(m: &str) -> String {
+    let m = m.split(" || ").next().unwrap_or(m);
+    for p in ["Expected operator, found", "Expected prefix or primary expression, found", "Expected postfix or infix expression, found", "called `Option::unwrap()`",
+              "called `Result::unwrap()`", "index out of bounds", "byte index", "range end index", "range start index", "slice index", "attempt to", "capacity overflow"] {
+        if let Some(i) = m.find(p) {
+            let rest: String = m[i..].chars().take(48).collect();
+            if p == "attempt to" { return rest; }
+            return p.to_string();
+        }
+    }
+    let t: String = m.chars().map(|c| if c.is_ascii_digit() { '#' } else { c }).take(60).collect();
+    t
+}
+
+pub fn classify(src: &str, r: &RunResult, c: &mut Case) {
+    let mut outcome = vec![];
+    for s in &r.stages {
+        outcome.push(format!("{}={}", s.stage, s.outcome));
+        c.tags.push(format!("{}:{}", s.stage, if s.outcome.starts_with("err:") { "err" } else { &s.outcome }));
+        if s.outcome.starts_with("err:") { c.tags.push(format!("error-kind:{}", &s.outcome[4..])); }
+        if s.outcome == "panic" && c.impl_violation.is_none() {
+            let at = s.detail.split(" || ").nth(1).unwrap_or("");
+            let frames = at.split('@').nth(1).unwrap_or("");
+            c.sig = Some(format!("panic:{}:{}@{}", s.stage, norm_msg(&s.detail), frames));
+            c.impl_violation = Some(format!("stage {} panics: {}", s.stage, s.detail));
+        }
+        if s.outcome == "render-failed" && c.impl_violation.is_none() {
+            c.sig = Some(format!("render-failed:{}", s.stage));
+            c.impl_violation = Some(format!("error of stage {} cannot be rendered against the source: {}", s.stage, s.detail));
+        }
+    }
+    if let Some((kind, stage, detail)) = &r.fatal {
+        let alloc = detail.contains("memory allocation of");
+        let stack = detail.contains("signal 11") || detail.contains("stack overflow");
+        let how = if kind == "hang" { "hang".to_string() } else if alloc { "abort-alloc".into() } else if stack { "abort-stack".into() } else { "abort".into() };
+        c.tags.push(format!("{}:{}", stage, how));
+        // a stack overflow of a deep expression tree hits whichever recursive pass comes first: no stage in the signature
+        c.sig = Some(if how == "abort-stack" { format!("{}:{}", how, features(stage, src)) } else { format!("{}:{}:{}", how, stage, features(stage, src)) });
+        c.impl_violation = Some(format!("stage {} {}: {}", stage, if kind == "hang" { "does not terminate within the time limit" } else { "kills the process" }, detail));
+        outcome.push(format!("{}={}", stage, how));
+    }
+    c.imp = format!("({})", outcome.join(" "));
+    c.oracle = format!("total {}", c.imp);
+    c.nontrivial = r.stages.len() >= 5 || r.fatal.is_some() || r.stages.iter().any(|s| s.outcome.starts_with("err:"));
+}
+
+// ------------------------------------------------------------------------------------ tokens / mutations
+fn tokenize(s: &str) -> Vec<String> {
+    let cs: Vec<char> = s.chars().collect();
+    let mut out = vec![];
+    let mut i = 0;
+    let multi = ["..=", "<->", "s.t.", "..", "<=", ">=", "->", "&&", "||"];
+    while i < cs.len() {
+        let c = cs[i];
+        if c.is_alphabetic() || c == '_' || c == '$' {
+            let mut j = i; while j < cs.len() && (cs[j].is_alphanumeric() || cs[j] == '_' || cs[j] == '$') { j += 1; }
+            // `s.t.`
+            if cs[i..j].iter().collect::<String>() == "s" && cs[i..].iter().take(4).collect::<String>() == "s.t." { out.push("s.t.".into()); i += 4; continue; }
+            out.push(cs[i..j].iter().collect()); i = j;
+        } else if c.is_ascii_digit() {
+            let mut j = i; while j < cs.len() && cs[j].is_ascii_digit() { j += 1; }
+            if j + 1 < cs.len() && cs[j] == '.' && cs[j + 1].is_ascii_digit() { j += 1; while j < cs.len() && cs[j].is_ascii_digit() { j += 1; } }
+            out.push(cs[i..j].iter().collect()); i = j;
+        } else if c == '"' {
+            let mut j = i + 1; while j < cs.len() && cs[j] != '"' { j += 1; }
+            j = (j + 1).min(cs.len());
+            out.push(cs[i..j].iter().collect()); i = j;
+        } else if c == ' ' || c == '\t' {
+            let mut j = i; while j < cs.len() && (cs[j] == ' ' || cs[j] == '\t') { j += 1; }
+            out.push(cs[i..j].iter().collect()); i = j;
+        } else {
+            let rest: String = cs[i..].iter().take(4).collect();
+            if let Some(m) = multi.iter().find(|m| rest.starts_with(**m)) { out.push(m.to_string()); i += m.chars().count(); }
+            else { out.push(c.to_string()); i += 1; }
+        }
+    }
+    out
+}
+fn is_space(t: &str) -> bool { t.chars().all(|c| c == ' ' || c == '\t') }
+fn is_number(t: &str) -> bool { t.chars().next().map(|c| c.is_ascii_digit()).unwrap_or(false) }
+fn is_word(t: &str) -> bool { t.chars().next().map(|c| c.is_alphabetic() || c == '_' || c == '$').unwrap_or(false) }
+
+const EXTREMES: [&str; 22] = ["9223372036854775807", "9223372036854775808", "9223372036854775806", "18446744073709551615", "18446744073709551616",
+    "4294967296", "4294967295", "2147483648", "2147483647", "9007199254740993", "99999999999999999999999999", "0", "1", "0.0", "0.5",
+    "179769313486231570000000000000000000000000000000000000000000000000000000000000000000000000000000000000000000000000000000000000000000000000000000000000000000000000000000000000000000000000000000000000000000000000000000000000000000000000000000000000000000000000000000000000000000000000000000000000000000000000.0",
+    "1797693134862315700000000000000000000000000000000000000000000000000000000000000000000000000000000000000000000000000000000000000000000000000000000000000000000000000000000000000000000000000000000000000000000000000000000000000000000000000000000000000000000000000000000000000000000000000000000000000000000000000.0",
+    "0.000000000000000000000000000000000000000000000000000000000000000000000000000000000000000000000000000000000000000000000000000000000000000000000000000000000000000000000000000000000000000000000000000000000000000000000000000000000000000000000000000000000000000000000000000000000000000000000000000000000000000000000000000000000000001",
+    "9223372036854775807.5", "0.99999", "0.000001", "1000000"];
+const GARBAGE: [&str; 40] = ["{", "}", "(", ")", "[", "]", "..", "..=", "in", "for", "as", "_", "\\", "\"", "$", "€", "∀", "\u{0}", "\t", ",", ":", "=", "<=", "-",
+    "!", "not", "and", "->", "<->", "let", "where", "define", "s.t.", "min", "sum", "Graph", "true", "\u{feff}", "\r", "é"];
+const OPS: [&str; 14] = ["+", "-", "*", "/", "and", "or", "xor", "implies", "iff", "&&", "||", "->", "<->", "<="];
+
+/// applies one mutation; returns its tag
+fn mutate(r: &mut Rng, toks: &mut Vec<String>) -> String {
+    let idx: Vec<usize> = (0..toks.len()).filter(|i| !is_space(&toks[*i])).collect();
+    if idx.is_empty() { return "noop".into(); }
+    let at = *r.pick(&idx);
+    let nums: Vec<usize> = idx.iter().cloned().filter(|i| is_number(&toks[*i])).collect();
+    let words: Vec<usize> = idx.iter().cloned().filter(|i| is_word(&toks[*i]) && toks[*i] != "s.t.").collect();
+    match r.below(14) {
+        0 => { toks.remove(at); "delete".into() }
+        1 => { let t = toks[at].clone(); toks.insert(at, t); "duplicate".into() }
+        2 => { let other = *r.pick(&idx); toks.swap(at, other); "swap".into() }
+        3 | 4 if !nums.is_empty() => { let i = *r.pick(&nums); toks[i] = r.pick(&EXTREMES).to_string(); "numeric-extreme".into() }
+        5 => { let ops: Vec<usize> = idx.iter().cloned().filter(|i| OPS.contains(&toks[*i].as_str())).collect();
+            if ops.is_empty() { toks.insert(at, r.pick(&GARBAGE).to_string()); "garbage".into() } else { let i = *r.pick(&ops); toks[i] = r.pick(&OPS).to_string(); "operator-swap".into() } }
+        6 => { toks.insert(at, r.pick(&GARBAGE).to_string()); "garbage".into() }
+        7 => { // huge range: the upper bound of a range becomes a large user number
+            let rs: Vec<usize> = idx.iter().cloned().filter(|i| toks[*i] == ".." || toks[*i] == "..=").collect();
+            if rs.is_empty() { toks.insert(at, "..".into()); return "garbage".into(); }
+            let i = *r.pick(&rs);
+            let big = *r.pick(&["30000000", "100000000000", "9223372036854775807", "4294967296", "1000000"]);
+            let mut j = i + 1; while j < toks.len() && is_space(&toks[j]) { j += 1; }
+            if j < toks.len() { toks[j] = big.into(); } else { toks.push(big.into()); }
+            "huge-range".into() }
+        8 if !words.is_empty() => { // deep index
+            let i = *r.pick(&words); let d = *r.pick(&[2usize, 5, 17, 64]);
+            let suffix = match r.below(3) { 0 => "[0]".repeat(d), 1 => "_1".repeat(d), _ => format!("{}1{}", "_{x".repeat(d), "}".repeat(d)) };
+            toks[i] = format!("{}{}", toks[i], suffix); "deep-index".into() }
+        9 if !words.is_empty() => { // nesting of parentheses / unary minus / blocks around one operand
+            let i = *r.pick(&words); let d = *r.pick(&[2usize, 3, 5, 8]);
+            toks[i] = match r.below(4) { 0 => format!("{}{}{}", "(".repeat(d), toks[i], ")".repeat(d)), 1 => format!("{}{}{}", "-(".repeat(d), toks[i], ")".repeat(d)),
+                2 => format!("{}{}{}", "min{ ".repeat(d), toks[i], " }".repeat(d)), _ => format!("{}{}{}", "abs{ -".repeat(d), toks[i], " }".repeat(d)) };
+            "nesting".into() }
+        10 if !words.is_empty() => { let i = *r.pick(&words); toks[i] = r.pick(&["true", "\"s\"", "[1, 2]", "[]", "[[1], [2, 3]]", "Graph { A -> [B], B }", "len(A)", "x_1", "nodes(G)", "Infinity", "PI", "0..3", "_"]).to_string(); "retype".into() }
+        11 => { toks.truncate(at); "truncate".into() }
+        12 => { let t = toks[at].clone(); let n = 2 + r.below(6); for _ in 0..n { toks.insert(at, t.clone()); } "repeat".into() }
+        _ => { toks[at] = r.pick(&GARBAGE).to_string(); "replace".into() }
+    }
+}
+
+/// inputs that are expected to exhaust the time limit are rationed (each costs the full limit)
+fn predicted_slow(src: &str) -> bool { let (p, b, c) = depths(src); p >= 10 || b >= 10 || c >= 16 || has_big_literal(src) }
+
+fn clamp(s: String) -> String {
+    if s.len() <= MAX_BYTES { return s; }
+    let mut end = MAX_BYTES; while !s.is_char_boundary(end) { end -= 1; }
+    s[..end].to_string()
+}
+
+// ------------------------------------------------------------------------------------ streams
+fn numeric_program(r: &mut Rng) -> (String, String) {
+    let lits = ["0", "1", "2", "3", "9223372036854775807", "9223372036854775806", "4611686018427387904", "3037000500", "4294967296", "2147483648",
+        "0.5", "2.0", "9007199254740993", "len(A)", "len(B)", "true", "false", "PI", "Infinity", "MinusInfinity", "1000000"];
+    fn e(r: &mut Rng, lits: &[&str], d: u32) -> String {
+        if d == 0 || r.chance(1, 3) { return r.pick(lits).to_string(); }
+        match r.below(8) {
+            0 => format!("-({})", e(r, lits, d - 1)),
+            1 => format!("-{}", r.pick(lits)),
+            2 => format!("({} - {})", e(r, lits, d - 1), e(r, lits, d - 1)),
+            3 => format!("({} * {})", e(r, lits, d - 1), e(r, lits, d - 1)),
+            4 => format!("({} / {})", e(r, lits, d - 1), e(r, lits, d - 1)),
+            5 => format!("(0 - {} - 1)", e(r, lits, d - 1)),
+            _ => format!("({} + {})", e(r, lits, d - 1), e(r, lits, d - 1)),
+        }
+    }
+    let x = e(r, &lits, 3);
+    let y = e(r, &lits, 2);
+    let pos = r.below(8);
+    let (tag, body) = match pos {
+        0 => ("const", format!("min 1\ns.t.\n    x >= a\nwhere\n    let A = [1, 2, 3]\n    let B = []\n    let a = {}\ndefine\n    x as Real\n", x)),
+        1 => ("coefficient", format!("min ({}) * x\ns.t.\n    x >= {}\nwhere\n    let A = [1, 2, 3]\n    let B = []\ndefine\n    x as Real\n", x, y)),
+        2 => ("range-bound", format!("min 1\ns.t.\n    sum(i in ({})..({})) {{ x }} >= 1\nwhere\n    let A = [1, 2, 3]\n    let B = []\ndefine\n    x as Real\n", x, y)),
+        3 => ("array-index", format!("min 1\ns.t.\n    A[{}] * x >= 1\nwhere\n    let A = [1, 2, 3]\n    let B = []\ndefine\n    x as Real\n", x)),
+        4 => ("compound-index", format!("min 1\ns.t.\n    x_{{{}}} >= 1\nwhere\n    let A = [1, 2, 3]\n    let B = []\ndefine\n    x_{{{}}} as Boolean\n", x, x)),
+        5 => ("domain-bound", format!("min 1\ns.t.\n    x >= 1\nwhere\n    let A = [1, 2, 3]\n    let B = []\ndefine\n    x as IntegerRange({}, {})\n    y as Real({}, {})\n", x, y, y, x)),
+        6 => ("range-inclusive", format!("min 1\ns.t.\n    x_i >= 1 for i in ({})..=({})\nwhere\n    let A = [1, 2, 3]\n    let B = []\ndefine\n    x_i as NonNegativeReal(0, {}) for i in ({})..=({})\n", x, y, y, x, y)),
+        _ => ("block", format!("min avg{{ {}, x }}\ns.t.\n    max{{ x, {} }} <= prod(i in 0..3){{ {} }}\nwhere\n    let A = [1, 2, 3]\n    let B = []\ndefine\n    x as Real(0, 9)\n", x, y, x)),
+    };
+    (format!("numeric:{}", tag), body)
+}
+
+fn noise(r: &mut Rng) -> (String, String) {
+    let n = *r.pick(&[1usize, 8, 40, 200, 1000, 4000]);
+    match r.below(6) {
+        0 => { let s: String = (0..n).map(|_| (32 + r.below(95)) as u8 as char).collect(); ("ascii".into(), s) }
+        1 => { let s: String = (0..n / 2).map(|_| char::from_u32(r.below(0x11000) as u32).unwrap_or('\u{fffd}')).collect(); ("unicode".into(), s) }
+        2 => { let b: Vec<u8> = (0..n).map(|_| r.below(256) as u8).collect(); ("bytes-lossy".into(), String::from_utf8_lossy(&b).into_owned()) }
+        3 | 4 => {
+            let vocab = ["min", "max", "solve", "s.t.", "where", "define", "let", "for", "in", "as", "sum", "prod", "avg", "len", "enumerate", "x", "y_i", "A", "i", "1", "2.5", "0", "..", "..=", "(", ")", "{", "}", "[", "]",
+                ",", ":", "+", "-", "*", "/", "<=", ">=", "=", "Boolean", "Real", "IntegerRange", "Graph", "->", "\n", "\n    ", "true", "\"s\"", "_", "!", "and", "or", "\\x_1", "$a", "//c\n", "/*", "*/"];
+            let mut s = String::from(if r.chance(1, 2) { "min x\ns.t.\n    " } else { "" });
+            for _ in 0..n / 3 { s.push_str(*r.pick(&vocab)); if r.chance(2, 3) { s.push(' '); } }
+            ("token-soup".into(), s) }
+        _ => { // bracket noise up to the nesting bound
+            let d = *r.pick(&[3usize, 9, 30, 64]);
+            let open = *r.pick(&["(", "[", "{", "min{", "sum(i in ", "-(", "x_{", "A["]);
+            let close = match open { "(" | "-(" => ")", "[" | "A[" => "]", "sum(i in " => "){1}", _ => "}" };
+            // deep `(`/`[` need exponential parse time: keep the deep variants to the cheap openers
+            let d = if (open == "(" || open == "-(" || open == "[") && d > 9 { 9 } else { d };
+            ("bracket-noise".into(), format!("min 1\ns.t.\n    {}1{} >= 0\n", open.repeat(d), close.repeat(d))) }
+    }
+}
+
+const SEED_PROGRAMS: [&str; 6] = [
+"min sum(u in nodes(G)) { x_u }\ns.t.\n    x_v + sum((_, u) in neigh_edges(v)) { x_u } >= 1 for v in nodes(G)\nwhere\n    let G = Graph {\n        A -> [B, C],\n        B -> [A, C: 2],\n        C -> [A]\n    }\ndefine\n    x_u as Boolean for v in nodes(G), (_, u) in edges(G)\n    x_v as Boolean for v in nodes(G)\n",
+"max sum((value, i) in enumerate(values)) { value * x_i }\ns.t.\n    sum((weight, i) in enumerate(weights)) { weight * x_i } <= capacity\nwhere\n    let weights = [10, 60, 30, 40]\n    let values = [1, 10, 15, 40]\n    let capacity = 102\ndefine\n    x_i as Boolean for i in 0..len(weights)\n",
+"min 1\ns.t.\n    c_j: 1 + sum(el in R, i in 0..(el + 1)) { i } <= 1 for R in M\nwhere\n    let M = [[1, 2], [3, 4]]\n    let j = 0\n",
+"min x + 2y\ns.t.\n    abs{ x - y } <= 3\n    max{ x, y } >= 1\n    (a or b) and !c\n    a -> b\ndefine\n    x, y as IntegerRange(-5, 5)\n    a, b, c as Boolean\n",
+"solve\ns.t.\n    avg(i in A) { i * x } >= 1\n    x_{i + 1} <= A[i] for i in 0..len(A)\nwhere\n    let A = [1, 2, 3]\ndefine\n    x as Real\n    x_i as NonNegativeReal(0, 10) for i in 1..=len(A)\n",
+"min 1\ns.t.\n    x >= a\nwhere\n    let a = -(0 - 9223372036854775807 - 1)\ndefine\n    x as Real\n",
+];
+
+pub fn generate(seed: u64, n: usize, thorough: bool, corpus: Option<&str>) -> Vec<Case> {
+    let mut r = Rng::new(crate::pre_gen::spread_seed(seed));
+    let mut cases = vec![];
+    let limit = Duration::from_millis(if thorough { 15000 } else { 3000 });
+    let mut pool = Pool::new(limit, 4 << 20);
+    let mut run = |src: String, tags: Vec<String>, pool: &mut Pool| -> Case {
+        let src = clamp(src);
+        let mut c = Case::default();
+        c.tags = tags;
+        c.show = src.clone();
+        let res = pool.run(&src, true);
+        classify(&src, &res, &mut c);
+        c
+    };
+    // ---- corpus (seeded known defects and past failures) first
+    let mut valid: Vec<String> = SEED_PROGRAMS.iter().map(|s| s.to_string()).collect();
+    if let Some(dir) = corpus {
+        if let Ok(rd) = std::fs::read_dir(dir) {
+            let mut files: Vec<_> = rd.filter_map(|e| e.ok()).map(|e| e.path()).filter(|p| p.extension().map(|x| x == "rooc").unwrap_or(false)).collect();
+            files.sort();
+            for f in files {
+                if let Ok(s) = std::fs::read_to_string(&f) {
+                    cases.push(run(s.clone(), vec!["stream:corpus".into(), format!("corpus:{}", f.file_name().unwrap().to_string_lossy())], &mut pool));
+                }
+            }
+        }
+    }
+    for s in SEED_PROGRAMS.iter() { cases.push(run(s.to_string(), vec!["stream:seed-programs".into()], &mut pool)); }
+    // ---- stream 1: grammar-derived programs
+    let n1 = n / 4;
+    for i in 0..n1 {
+        let mut rr = r.fork();
+        let mut g = ProgGen::new(&mut rr, GenCfg { graphs: i % 2 == 0, logic: i % 3 == 0, errors: false });
+        let p = g.program();
+        let src = print_prog(&p);
+        if valid.len() < 64 { valid.push(src.clone()); }
+        cases.push(run(src, vec!["stream:grammar".into()], &mut pool));
+    }
+    // ---- numeric extremes in every compile-time position
+    let mut slow_budget = if thorough { 60 } else { 4 };
+    for _ in 0..n / 4 {
+        let (tag, src) = numeric_program(&mut r);
+        // a numeric extreme in a range bound is the known "range as large as a user number" shape: rationed
+        if tag.contains("range") && has_big_literal(&src) { if slow_budget == 0 { continue; } slow_budget -= 1; }
+        cases.push(run(src, vec!["stream:numeric-extremes".into(), tag], &mut pool));
+    }
+    // ---- stream 2: mutated valid programs
+    for _ in 0..n / 4 {
+        let base = r.pick(&valid).clone();
+        let mut toks = tokenize(&base);
+        let k = 1 + r.below(3);
+        let mut tags = vec!["stream:mutated".to_string()];
+        for _ in 0..k { tags.push(format!("mutation:{}", mutate(&mut r, &mut toks))); }
+        let src = clamp(toks.concat());
+        // inputs that are expected to exhaust the time limit are rationed (each costs the full limit)
+        if predicted_slow(&src) { if slow_budget == 0 { continue; } slow_budget -= 1; }
+        cases.push(run(src, tags, &mut pool));
+    }
+    // ---- stream 3: raw noise
+    for _ in 0..n / 4 {
+        let (tag, src) = noise(&mut r);
+        if predicted_slow(&src) { if slow_budget == 0 { continue; } slow_budget -= 1; }
+        cases.push(run(src, vec!["stream:noise".into(), format!("noise:{}", tag)], &mut pool));
+    }
+    // ---- the nesting bound itself (deep but cheap constructs) and the known slow shapes, a fixed small set
+    for (tag, src) in [
+        ("deep-blocks-64", format!("min 1\ns.t.\n    {}x{} >= 0\ndefine\n    x as Real(0, 1)\n", "min{ ".repeat(64), " }".repeat(64))),
+        ("deep-access-64", format!("min 1\ns.t.\n    A{} * x >= 0\nwhere\n    let A = [0]\ndefine\n    x as Real\n", "[0]".repeat(64))),
+        ("deep-index-64", format!("min 1\ns.t.\n    {}1{} >= 0\ndefine\n    x_1 as Real\n", "x_{".repeat(64), "}".repeat(64))),
+        ("deep-calls-64", format!("min 1\ns.t.\n    {}A{} * x >= 0\nwhere\n    let A = [0]\ndefine\n    x as Real\n", "len(".repeat(64), ")".repeat(64))),
+        ("deep-scoped-24", format!("min 1\ns.t.\n    {}x{} >= 0\ndefine\n    x as Real\n", (0..24).map(|i| format!("sum(i{} in 0..1){{ ", i)).collect::<String>(), " }".repeat(24))),
+        ("deep-parens-16", format!("min 1\ns.t.\n    {}x{} >= 0\ndefine\n    x as Real\n", "(".repeat(16), ")".repeat(16))),
+        ("deep-iterators-40", format!("min 1\ns.t.\n    {}1{} >= 0\n", "sum(i in ".repeat(40), "){1}".repeat(40))),
+        ("deep-arrays-28", format!("min 1\ns.t.\n    x >= 0\nwhere\n    let a = {}1{}\ndefine\n    x as Real\n", "[".repeat(28), "]".repeat(28))),
+        ("sum-10000", "min 1\ns.t.\n    sum(i in 0..20000){ x } >= 1\ndefine\n    x as Real\n".to_string()),
+        ("range-3e7", "min 1\ns.t.\n    sum(i in 0..30000000){ x } >= 1\ndefine\n    x as Real\n".to_string()),
+        ("range-1e11", "min 1\ns.t.\n    sum(i in 0..100000000000){ x } >= 1\ndefine\n    x as Real\n".to_string()),
+        ("range-i64max", "min 1\ns.t.\n    sum(i in 0..9223372036854775807){ x } >= 1\ndefine\n    x as Real\n".to_string()),
+        ("nested-body-tag", "min 1\ns.t.\n    x >= sum(i in 0..max{1,2}){ i }\ndefine\n    x as Real\n".to_string()),
+        ("neg-2pow63", format!("min 1\ns.t.\n    x >= a\nwhere\n    let A = [{}]\n    let a = -(len(A) * len(A) * len(A) * len(A) * len(A) * len(A) * len(A))\ndefine\n    x as Real\n", vec!["1"; 512].join(","))),
+    ] {
+        cases.push(run(src, vec!["stream:fixed-shapes".into(), format!("shape:{}", tag)], &mut pool));
+    }
+    let restarts = pool.restarts;
+    drop(pool);
+    // ---- the primitive operator core (in-process, catch_unwind): correspondence with Rooc/Pre/Prim.lean
+    let mut dynamic = pre_reflect::dynamic_cases();
+    for c in dynamic.iter_mut() {
+        c.tags.push("stream:operator-core".into());
+        c.oracle = format!("opcore ({}) {}", c.req, c.imp);
+        if c.imp == "(panic)" {
+            let which = c.req.split_whitespace().take(2).collect::<Vec<_>>().join(":");
+            c.sig = Some(format!("panic:operator-core:{}", which));
+            c.impl_violation = Some(format!("primitive operator panics: {}", c.req));
+        }
+    }
+    cases.extend(dynamic);
+    if let Some(c) = cases.first_mut() { c.tags.push(format!("worker-restarts:{}", restarts)); }
+    cases
+}
